@@ -110,6 +110,8 @@ def run_case(case):
             hz.__enter__()
         try:
             if prev:
+                # a driver is tied to the element list of its settings (documented): the list names both systems' elements
+                params["elements"] = sorted({0} | {int(z) for m in prev + mols for z in m["species"]})
                 molecule0, es = sp.build(prev, params, pad_extra=pad)
                 if act:
                     molecule0.active_state = act
